@@ -1,4 +1,5 @@
 import IdenaModel.Proofs.PushPull
+import IdenaModel.Proofs.PushPullWindow
 /-!
 # C20 — push/pull fetches each announced item once, falling back to the next announcer
 
@@ -13,11 +14,14 @@ Outputs: `imm p h t` (pull request sent at once), `dec p h t` (deferred pull req
 * `pending_sorted`, `bounded`, `never_panics`, `active_fresh_after_gc` — invariants of the tracker
 * `first_announcer_immediate`(`_trace`) — an item the node lacks is requested from the first announcer at once
 * `parallel_cap` — at most `max 1 (MaxParallelPulls − 1)` immediate requests per hash per life of its counter
+* `window_cap` — in any time window shorter than `pullDelay` at most that many requests (immediate + deferred) per hash
 * `deferred_after_delay`, `request_only_when_lacking` — a deferred request is issued only when every earlier request
   for the hash is at least `pullDelay` old, and only for an item that is not stored
 * `no_request_after_arrival` — after an arrival and until the cache entry expires no request is issued for the hash
   (the only output possible is the relay `fwd` of a request the tracker issued before; `fwd_relays_dec`)
 * `known_announcement_ignored`
+* `fallback_progress`, `head_examined` — one slot of the loop on a due head: dropped (stored / no registered pull),
+  re-timed to the newer registered pull, or requested
 * `no_loss` (current code) / `no_loss_as_found_counterexample` + `no_loss_partial` (code before fc3fdbe1)
 * `request_once` (current code) / `request_once_as_found_counterexample`
 -/
@@ -58,41 +62,6 @@ theorem first_announcer_immediate (c : Cfg) (s : St) (p h : Nat)
     (hlack : h ∉ s.held) (hfirst : lookup s.cnt h = none) :
     (step c s (.announce p h)).2 = [.imm p h s.now] := by
   simp [step, announce, hlack, hfirst]
-
-theorem afterWake_cnt_held (s : St) (obj : Entry) :
-    (afterWake s obj).1.cnt = s.cnt ∧ (afterWake s obj).1.held = s.held ∧ (afterWake s obj).1.pc = s.pc := by
-  obtain ⟨-, -, -, r4, r5, r6, -⟩ := removeHead_fields s
-  unfold afterWake
-  split
-  · exact ⟨r6, r5, r4⟩
-  · split
-    · exact ⟨r6, r5, r4⟩
-    · rename_i t _
-      obtain ⟨-, -, -, m4, m5, m6, -⟩ := moveHead_fields s t
-      split
-      · exact ⟨m6, m5, m4⟩
-      · exact ⟨r6, r5, r4⟩
-
-theorem loopStep_cnt_held (c : Cfg) (s : St) :
-    (loopStep c s).1.cnt = s.cnt ∧ (loopStep c s).1.held = s.held := by
-  unfold loopStep
-  split
-  · split <;> simp
-  · split
-    · have := afterWake_cnt_held { s with pc := .run } ‹Entry›; exact ⟨this.1, this.2.1⟩
-    · simp
-  · split
-    · simp
-    · split
-      · simp
-      · have := afterWake_cnt_held s ‹Entry›; exact ⟨this.1, this.2.1⟩
-
-theorem addPending_cnt_held (c : Cfg) (s : St) (p h : Nat) :
-    (addPending c s p h).cnt = s.cnt ∧ (addPending c s p h).held = s.held ∧
-    (addPending c s p h).pc = s.pc := by
-  unfold addPending; split
-  · simp
-  · split <;> simp
 
 theorem step_held (c : Cfg) (s : St) (e : Ev) (h : Nat) (he : e ≠ .arrive h) (hx : e ≠ .expire h) :
     h ∈ (step c s e).1.held ↔ h ∈ s.held := by
@@ -318,6 +287,80 @@ theorem request_only_when_lacking (c : Cfg) (s : St) (e : Ev) (o : Out) (ho : o 
     · simp at ho; subst ho; exact ⟨rfl, Or.inl ⟨_, rfl⟩⟩
   | expire h => simp [step] at ho
   | forget h => simp [step] at ho
+
+/-! ## at most the configured number of peers at a time -/
+
+/-- a pull request for `h` decided now: sent at once, or issued by the tracker (`fwd` is the relay of a `dec`) -/
+def isReq (h : Nat) (o : Out) : Bool := isImm h o || isDec h o
+
+theorem immCount_eq (h : Nat) (o : List Out) : immCount h o = o.countP (isImm h) := by
+  unfold immCount
+  congr 1
+
+theorem hash_of_isReq {h : Nat} {o : Out} (hr : isReq h o = true) : o.hash = h := by
+  cases o <;> simp_all [isReq, isImm, isDec, Out.hash]
+
+/-- over any trace in which the counter of `h` does not expire, and for any window `[a, a + pullDelay)`: at most
+`max 1 (MaxParallelPulls − 1)` pull requests for `h` (to whatever peers, immediate and deferred together) fall into
+the window -/
+theorem window_cap (c : Cfg) (evs : List Ev) (h : Nat) (hnf : Ev.forget h ∉ evs) (a : Nat) :
+    ((run c init evs).2.filter
+      (fun o => isReq h o && decide (a ≤ o.time) && decide (o.time < a + c.delay))).length ≤ max 1 (c.cap - 1) := by
+  have F1 := deferred_after_delay c evs
+  have F2 := parallel_cap c init h evs hnf
+  have F3 := run_dec_then_no_imm c h evs hnf init ⟨by simp [init], by simp [init]⟩
+  generalize (run c init evs).2 = outs at F1 F2 F3
+  generalize hW : outs.filter (fun o => isReq h o && decide (a ≤ o.time) && decide (o.time < a + c.delay)) = W
+  have hsub : W.Sublist outs := hW ▸ List.filter_sublist
+  have hP : ∀ x ∈ W, isReq h x = true ∧ a ≤ x.time ∧ x.time < a + c.delay := by
+    intro x hx
+    rw [← hW] at hx
+    have := (List.mem_filter.mp hx).2
+    simpa [Bool.and_eq_true, and_assoc] using this
+  have W1 := F1.sublist hsub
+  have W3 := F3.sublist hsub
+  cases W with
+  | nil => simp
+  | cons x rest =>
+    have hx := hP x (by simp)
+    have hx1 := List.pairwise_cons.mp W1
+    have hx3 := List.pairwise_cons.mp W3
+    -- nothing behind the first request of the window is a deferred request
+    have hnodec : ∀ y ∈ rest, isDec h y = false := by
+      intro y hy
+      have hyP := hP y (List.mem_cons_of_mem _ hy)
+      cases y with
+      | dec p h' t =>
+        by_cases hh : h' = h
+        · subst hh
+          have := hx1.1 _ hy p h' t rfl (hash_of_isReq hx.1)
+          simp [Out.time] at hyP
+          omega
+        · simp [isDec, hh]
+      | imm p h' t => rfl
+      | fwd p h' t => rfl
+    have himm : ∀ y ∈ rest, isImm h y = true := by
+      intro y hy
+      have := (hP y (List.mem_cons_of_mem _ hy)).1
+      simpa [isReq, hnodec y hy] using this
+    by_cases hd : isDec h x = true
+    · have : rest = [] := by
+        apply List.eq_nil_iff_forall_not_mem.mpr
+        intro y hy
+        have := hx3.1 y hy hd
+        rw [himm y hy] at this; cases this
+      subst this
+      simp; omega
+    · have hxi : isImm h x = true := by simpa [isReq, hd] using hx.1
+      have hall : ∀ y ∈ x :: rest, isImm h y = true := by
+        intro y hy
+        rcases List.mem_cons.mp hy with rfl | hy
+        · exact hxi
+        · exact himm y hy
+      have h1 : (x :: rest).countP (isImm h) = (x :: rest).length := List.countP_eq_length.mpr hall
+      have h2 : (x :: rest).countP (isImm h) ≤ outs.countP (isImm h) := hsub.countP_le
+      rw [immCount_eq] at F2
+      omega
 
 /-! ## once the item is stored: no further requests, announcements ignored -/
 
@@ -561,6 +604,42 @@ example : (run { asFoundCfg with asFound := false }
 an announcement after arrival emits nothing, before arrival it emits a request -/
 example : (run { delay := 500, cap := 3, maxPending := 5 } init [.arrive 7, .announce 1 7]).2 = [] ∧
     (run { delay := 500, cap := 3, maxPending := 5 } init [.announce 1 7]).2 = [.imm 1 7 0] := by decide
+
+/-- the bound of `window_cap` is reached: `MaxParallelPulls = 3` ⇒ two requests for one hash in one window -/
+example : ((run { delay := 500, cap := 3, maxPending := 5 } init [.announce 1 1, .announce 2 1, .announce 3 1]).2.filter
+    (fun o => isReq 1 o && decide (0 ≤ o.time) && decide (o.time < 0 + 500))).length = 2 := by decide
+
+/-- enabling condition of the fall-back, spelled out: the head is due, the item is not stored, and no pull for the hash
+was registered after the entry's pull time ⇒ this slot of the loop issues the request to that peer and registers it -/
+theorem fallback_progress (c : Cfg) (s : St) (obj : Entry) (rest : List Entry) (t : Nat)
+    (hpc : s.pc = .run) (hp : s.pending = obj :: rest) (hdue : obj.time + c.delay ≤ s.now)
+    (hlack : obj.hash ∉ s.held) (hact : lookup s.active obj.hash = some t) (ht : t ≤ obj.time) :
+    (step c s .loop).2 = [.dec obj.peer obj.hash s.now] ∧ (step c s .loop).1.pending = rest ∧
+    lookup (step c s .loop).1.active obj.hash = some s.now := by
+  have h1 : ¬ s.now < obj.time + c.delay := by omega
+  have h2 : ¬ obj.time < t := by omega
+  simp [step, loopStep, hpc, hp, h1, afterWake, hlack, hact, h2, removeHead, lookup_set]
+
+/-- what a slot of the loop does with a due head, exhaustively: it drops it for one of the two legitimate reasons, or
+re-times it to the pull registered meanwhile (so that the delay counts from that pull), or requests it -/
+theorem head_examined (c : Cfg) (s : St) (obj : Entry) (rest : List Entry)
+    (hpc : s.pc = .run) (hp : s.pending = obj :: rest) (hdue : obj.time + c.delay ≤ s.now) :
+    ((obj.hash ∈ s.held ∨ lookup s.active obj.hash = none) ∧
+        (step c s .loop).1.pending = rest ∧ (step c s .loop).2 = []) ∨
+    (∃ t, lookup s.active obj.hash = some t ∧ obj.time < t ∧
+        (step c s .loop).1.pending = insertSorted { obj with time := t } rest ∧ (step c s .loop).2 = []) ∨
+    ((step c s .loop).2 = [.dec obj.peer obj.hash s.now] ∧ (step c s .loop).1.pending = rest) := by
+  have h1 : ¬ s.now < obj.time + c.delay := by omega
+  by_cases hh : obj.hash ∈ s.held
+  · left; simp [step, loopStep, hpc, hp, h1, afterWake, hh, removeHead]
+  · cases ha : lookup s.active obj.hash with
+    | none => left; simp [step, loopStep, hpc, hp, h1, afterWake, hh, ha, removeHead]
+    | some t =>
+      by_cases ht : obj.time < t
+      · right; left
+        exact ⟨t, rfl, ht, by simp [step, loopStep, hpc, hp, h1, afterWake, hh, ha, ht, moveHead]⟩
+      · right; right
+        simp [step, loopStep, hpc, hp, h1, afterWake, hh, ha, ht, removeHead]
 
 /-- the bound of `bounded` is reached -/
 example : (run { delay := 500, cap := 1, maxPending := 2 } init
